@@ -191,8 +191,25 @@ void progress() { if (tl_id >= 0) { th[tl_id].spin = 0; th[tl_id].spinRun = 0; }
 // which logical thread touched an atomic / volatile location last: consecutive operations by different threads on one
 // location are the interleavings the schedule-quantified properties are about
 struct Loc { const volatile void* a; int t; }; Loc locs[512]; int nlocs = 0;
+// Locations that have been the target of an atomic or volatile access. A plain (non-atomic) read or write of such a location is a
+// decision point as well: "counter updated atomically here, plainly there" is the usual shape of a broken reference count, and the
+// compiler keeps the loaded value in a register across the instrumentation call in front of the store, so a switch at that call
+// splits the read-modify-write exactly like a preemption between the two machine instructions would.
+const int ALOC_N = 2048; const volatile void* aloc[ALOC_N]; int alocUsed = 0;
+inline bool alocHas(const volatile void* a) {
+  unsigned h = (unsigned)(((unsigned long)a >> 3) * 2654435761u) & (ALOC_N - 1);
+  for (int k = 0; k < 8; ++k) { const volatile void* e = aloc[(h + (unsigned)k) & (ALOC_N - 1)]; if (e == a) return true; if (!e) return false; }
+  return false;
+}
+inline void alocAdd(const volatile void* a) {
+  if (alocUsed > ALOC_N / 2) return;
+  unsigned h = (unsigned)(((unsigned long)a >> 3) * 2654435761u) & (ALOC_N - 1);
+  for (int k = 0; k < 8; ++k) { const volatile void*& e = aloc[(h + (unsigned)k) & (ALOC_N - 1)]; if (e == a) return; if (!e) { e = a; ++alocUsed; return; } }
+}
+void plainAccess(void* a) { if (!g_active || tl_id < 0 || !alocUsed || !alocHas(a)) return; ++st.plainOnShared; yieldPoint(); }
 void noteShared(const volatile void* a) {
   if (!g_active || tl_id < 0) return;
+  alocAdd(a);
   for (int i = 0; i < nlocs; ++i) if (locs[i].a == a) { if (locs[i].t != tl_id) { ++st.interleavedShared; locs[i].t = tl_id; } return; }
   if (nlocs < 512) { locs[nlocs].a = a; locs[nlocs].t = tl_id; ++nlocs; }
 }
@@ -290,7 +307,7 @@ void run(const Config& c, void (*fn)(void*), void* arg, void (*onVerdict)(Verdic
   g_trace = getenv("VSCHED_TRACE") != nullptr;
   cfg = c; st = Stats(); rs = c.seed * 0x9E3779B97F4A7C15ull + 1; g_onVerdict = onVerdict;
   vclock = (long long)(rnd() % 1000) * 1000000LL + (long long)(rnd() % 1000000);   // random phase within the second (deadline arithmetic has carries)
-  nth = 0; nmx = ncv = nsm = 0; rrNext = 0; nlocs = 0;
+  nth = 0; nmx = ncv = nsm = 0; rrNext = 0; nlocs = 0; memset((void*)aloc, 0, sizeof aloc); alocUsed = 0;
   for (int i = 0; i < MAXT; ++i) th[i] = T();
   // the few preemption / priority change points lie within a horizon drawn per run (short runs and long scenarios both get
   // their share), and the uniform strategy keeps the running thread with a per-run probability (runs of different lengths)
@@ -483,11 +500,11 @@ void __tsan_vptr_update(void**, void*) {}
 void __tsan_vptr_read(void**) {}
 void __tsan_read_range(void*, unsigned long) {}
 void __tsan_write_range(void*, unsigned long) {}
-#define PLAIN(N) void __tsan_read##N(void*) {} void __tsan_write##N(void*) {} void __tsan_unaligned_read##N(void*) {} void __tsan_unaligned_write##N(void*) {} \
+#define PLAIN(N) void __tsan_read##N(void* a) { plainAccess(a); } void __tsan_write##N(void* a) { plainAccess(a); } void __tsan_unaligned_read##N(void*) {} void __tsan_unaligned_write##N(void*) {} \
   void __tsan_volatile_read##N(void* a) { noteShared(a); yieldPoint(true); } void __tsan_volatile_write##N(void* a) { noteShared(a); yieldPoint(); progress(); } \
   void __tsan_unaligned_volatile_read##N(void*) { yieldPoint(true); } void __tsan_unaligned_volatile_write##N(void*) { yieldPoint(); progress(); }
 PLAIN(1) PLAIN(2) PLAIN(4) PLAIN(8) PLAIN(16)
-void __tsan_read_write1(void*) {} void __tsan_read_write2(void*) {} void __tsan_read_write4(void*) {} void __tsan_read_write8(void*) {} void __tsan_read_write16(void*) {}
+void __tsan_read_write1(void* a) { plainAccess(a); } void __tsan_read_write2(void* a) { plainAccess(a); } void __tsan_read_write4(void* a) { plainAccess(a); } void __tsan_read_write8(void* a) { plainAccess(a); } void __tsan_read_write16(void*) {}
 void* __tsan_memcpy(void* d, const void* s, unsigned long n) { return memcpy(d, s, n); }
 void* __tsan_memmove(void* d, const void* s, unsigned long n) { return memmove(d, s, n); }
 void* __tsan_memset(void* d, int c, unsigned long n) { return memset(d, c, n); }
